@@ -608,6 +608,14 @@ def _inline_statement_call(repo, caller_fi, st, call, form, callee_fi) -> bool:
         return _replace_stmt(caller_fi.node, st, new)
     # assign / expr: bring the callee to single-exit form (`if c: return a` + rest  ->  `if c: t = a  else: rest`)
     if any(r is not body[-1] for r in rets):
+        if form == "expr" and all(r.value is None for r in rets):
+            conv = _strip_void_returns(body)
+            if conv is None:
+                return False
+            new = pre + conv
+            for s2 in new:
+                ast.fix_missing_locations(s2)
+            return _replace_stmt(caller_fi.node, st, new)
         if form != "assign":
             return False
         conv = _single_exit(body, st.targets, st)
@@ -687,6 +695,42 @@ def _hoist_call(caller_fi, st, call: ast.Call) -> bool:
     ast.fix_missing_locations(pre)
     ast.fix_missing_locations(new_st)
     return _replace_stmt(caller_fi.node, st, [pre, new_st])
+
+
+def _strip_void_returns(stmts) -> Optional[List[ast.stmt]]:
+    """A statement list with valueless `return`s (outside loops / try / with) rewritten without them: what follows an `if c: ...; return` moves
+    into the else branch.  None when a return sits inside a loop, try or with block."""
+    out: List[ast.stmt] = []
+    for i, s2 in enumerate(stmts):
+        if isinstance(s2, ast.Return):
+            if s2.value is not None:
+                return None
+            return out or [ast.copy_location(ast.Pass(), s2)]
+        has_ret = any(isinstance(n, ast.Return) for n in ast.walk(s2))
+        if not has_ret:
+            out.append(s2)
+            continue
+        if not isinstance(s2, ast.If):
+            return None
+        rest = list(stmts[i + 1:])
+        b_ret, o_ret = _always_returns(s2.body), _always_returns(s2.orelse) if s2.orelse else False
+        if b_ret and not o_ret:
+            body = _strip_void_returns(list(s2.body))
+            orelse = _strip_void_returns(list(s2.orelse) + rest)
+        elif o_ret and not b_ret:
+            body = _strip_void_returns(list(s2.body) + rest)
+            orelse = _strip_void_returns(list(s2.orelse))
+        elif b_ret and o_ret:
+            body = _strip_void_returns(list(s2.body))
+            orelse = _strip_void_returns(list(s2.orelse))
+        else:
+            return None   # a conditional return deeper inside a branch that can also fall through
+        if body is None or orelse is None:
+            return None
+        orelse = [x for x in orelse if not isinstance(x, ast.Pass)]
+        out.append(ast.copy_location(ast.If(test=s2.test, body=body or [ast.Pass()], orelse=orelse), s2))
+        return out
+    return out
 
 
 def _always_returns(stmts) -> bool:
@@ -804,6 +848,68 @@ def _inline_expression_call(caller_fi, st, call: ast.Call, callee_fi) -> bool:
     R.hit = False
     R().visit(st)
     return R.hit
+
+
+# ------------------------------------------------------------------------------------------------ pass 1a'
+def inline_new_properties(repo) -> List[str]:
+    """A @property the pinned class does not have, whose body is one `return <pure expression over self>`: reads `self.<name>` in the
+    methods of that class (and of its subclasses that do not override it) are replaced by the expression."""
+    known = set(vocab()["functions"])
+    done: List[str] = []
+    props: Dict[Tuple[str, str], ast.AST] = {}
+    for q, fi in repo.functions.items():
+        if q in known or not isinstance(fi.node, ast.FunctionDef) or not fi.cls or fi.parent is not None:
+            continue
+        ds = fi.node.decorator_list
+        if len(ds) != 1 or not (isinstance(ds[0], ast.Name) and ds[0].id == "property"):
+            continue
+        body = _callee_parts(fi)
+        if len(body) == 1 and isinstance(body[0], ast.Return) and body[0].value is not None and not _has_impure_call(body[0].value) \
+                and len(fi.node.args.args) == 1:
+            props[(q.rsplit(".", 1)[0], fi.node.name)] = body[0].value
+    if not props:
+        return done
+    bases = getattr(repo, "class_bases", {})
+
+    def inherits(cq, target, depth=0):
+        if cq == target:
+            return True
+        if depth > 4:
+            return False
+        mod = cq.rsplit(".", 1)[0]
+        return any(inherits(b if b in bases else f"{mod}.{b}", target, depth + 1) for b in bases.get(cq, []))
+    for q, fi in repo.functions.items():
+        if not isinstance(fi.node, ast.FunctionDef) or not fi.cls or fi.parent is not None or not fi.node.args.args:
+            continue
+        cq = q.rsplit(".", 1)[0]
+        mine = {}
+        for (pc, name), v in props.items():
+            if name == fi.node.name and pc == cq:
+                continue
+            if pc == cq or (inherits(cq, pc) and f"{cq}.{name}" not in repo.functions):
+                mine[name] = v
+        if not mine:
+            continue
+        selfname = fi.node.args.args[0].arg
+
+        class R(ast.NodeTransformer):
+            hit = False
+
+            def visit_Attribute(self, node):
+                node = self.generic_visit(node)
+                if isinstance(node.ctx, ast.Load) and isinstance(node.value, ast.Name) and node.value.id == selfname and node.attr in mine:
+                    R.hit = True
+                    e = copy.deepcopy(mine[node.attr])
+                    if selfname != "self":
+                        e = _Rename({"self": selfname}).visit(e)
+                    return ast.copy_location(e, node)
+                return node
+        R.hit = False
+        fi.node.body = [R().visit(b) for b in fi.node.body]
+        if R.hit:
+            ast.fix_missing_locations(fi.node)
+            done.append(q)
+    return sorted(set(done))
 
 
 # ------------------------------------------------------------------------------------------------ pass 1b
